@@ -6,9 +6,7 @@ import (
 	"fmt"
 	"io"
 
-	"golang.org/x/net/html"
-
-	"github.com/titpetric/vuego/internal/helpers"
+	"github.com/titpetric/vuego/internal/parser"
 )
 
 // Render processes the loaded template and writes the output to w.
@@ -89,9 +87,13 @@ func (t *template) RenderReader(ctx context.Context, w io.Writer, r io.Reader) e
 		return err
 	}
 
-	// Parse the template from reader as a fragment
-	body := helpers.GetBodyNode()
-	dom, err := html.ParseFragment(r, body)
+	// Parse the template the way every other entry point does: as a full document when
+	// it is one (doctype, <html>, <head> and <body> are kept), as a fragment otherwise
+	src, err := io.ReadAll(r)
+	if err != nil {
+		return fmt.Errorf("error reading template: %w", err)
+	}
+	dom, err := parser.ParseTemplateBytes(src)
 	if err != nil {
 		return fmt.Errorf("error parsing template: %w", err)
 	}
